@@ -1352,7 +1352,7 @@ class TT():
 
         elif isinstance(index, int):
             # tensor is 1d and one element is retrived
-            if len(self.__N) == 1:
+            if len(self.__N) == 1 and not self.__is_ttm:
                 sliced = self.cores[0][0, index, 0]
             else:
                 raise InvalidArguments('Invalid slice. Tensor is not 1d.')
@@ -1364,7 +1364,7 @@ class TT():
 
         elif isinstance(index, slice):
             # tensor is 1d and one slice is extracted
-            if len(self.__N) == 1:
+            if len(self.__N) == 1 and not self.__is_ttm:
                 sliced = TT([self.cores[0][:, index, :]])
             else:
                 raise InvalidArguments('Invalid slice. Tensor is not 1d.')
